@@ -80,6 +80,10 @@ func (c *Config) ParseArgs() error {
 	c.DryRun = *dryRun
 	c.Prints = *prints
 
+	if 1 < flag.NArg() {
+		// Parsing stops at the input path: flags written after it would be ignored without a word.
+		return fmt.Errorf("unexpected argument after the input path: %v", flag.Arg(1))
+	}
 	if c.Log != "" && c.Log == c.Output {
 		// The log is opened (and truncated) before anything else happens, also in a dry or failing run.
 		return fmt.Errorf("%v: the log file would replace the output file; choose another -out", c.Output)
